@@ -173,8 +173,13 @@ func NewNNSDriver(mode string) *NNSDriver {
 		}
 	case "C11":
 		d.pre = []string{"aa.com", "x.aa.com"} // both start as U1's, which saves two levels of depth
-		d.names = []string{"aa.com", "x.aa.com", "z.aa.com", "z.x.aa.com"}
+		d.names = []string{"aa.com", "x.aa.com", "z.aa.com", "z.x.aa.com", "bb.com"}
 		add(
+			// a fresh second-level name "on behalf of an owner who witnesses": an account that does not sign,
+			// a deployed contract (which cannot sign and is not the caller), and the honest case
+			nnsOp{kind: "register", name: "bb.com", who: "U2", signer: s("S")},
+			nnsOp{kind: "register", name: "bb.com", who: "P", signer: s("S")},
+			nnsOp{kind: "register", name: "bb.com", who: "U2", signer: s("S", "U2")},
 			nnsOp{kind: "register", name: "aa.com", who: "U1", signer: s("U1")},
 			nnsOp{kind: "register", name: "x.aa.com", who: "U1", signer: s("U1")},
 			nnsOp{kind: "transfer", name: "aa.com", who: "U2", signer: s("U1")},
